@@ -631,7 +631,7 @@ static FDEFS: &[FDef] = &[
     c("str.isalnum", "a0.isalnum()", &["s1"]),
     c("str.isalpha", "a0.isalpha()", &["s1"]),
     c("str.isascii", "a0.isascii()", &["s0"]),
-    c("str.count", "a0.count(a1)", &["s0", "s1"]),
+    c("str.count", "a0.count(a1)", &["s0", "c1{α|α}"]),
     c("str.find", "a0.find(a1)", &["s0", "s1"]),
     c("str.rfind", "a0.rfind(a1)", &["s0", "s1"]),
     c("str.format", "a0.format(a1, x=a2)", &["c0{Q‹›q‹x›|K‹›k‹x›}", "s1", "s2"]),
